@@ -295,7 +295,8 @@ def gen_case(rng: random.Random) -> dict:
     c['mode'] = 'jit' if rng.random() < 0.5 else 'eager'
     c['dim'] = rng.randint(1, 4)
     c['N'] = rng.randint(1, 6)
-    c['dt'] = rng.choice([0.01, 0.02, 0.05])
+    c['dt'] = rng.choice([0.01, 0.02, 0.05, 0.1, 0.2])
+    c['decimal_span'] = rng.random() < 0.6
     c['cutoff_factor'] = rng.choice([0.5, 1.0, 2.0])
     c['solver'] = rng.choice(['backward_forward_euler', 'crank_nicolson_rk2',
                               'crank_nicolson_rk3', 'crank_nicolson_rk4',
@@ -641,6 +642,10 @@ def run_dfi(c, log, steady: bool):
   dt = c['dt']
   N = c['N']
   time_span = 2 * dt * N
+  if c.get('decimal_span'):
+    # the way a user writes it: a decimal literal such as 0.6 (whose quotient
+    # by 2*dt may land one ulp below the integer)
+    time_span = float(repr(round(time_span, 10)))
   cutoff = time_span * c['cutoff_factor']
   D = jnp.asarray(rng.uniform(0.1, 2.0, size=(d,)))
   S = rng.uniform(-1, 1, size=(d, d))
